@@ -301,6 +301,25 @@ def heap_cases(nw=2):
                  [[spawn(1, 2), send(1, hb(1, 2)), send(1, c(I(99))), send(1, c(I(7))),
                    select(2, aw(1)), ret(c(OK))], sel], nw=nw)
     out.append(meta(s, False, True, ["C06", "C05"]))
+    # an EARLIER source (a timeout, an awaited process) becomes ready while a later filter is running on a binary
+    # message: the select completes through the earlier source with the message still held in `receiving`
+    # (seeded change C06-3: the held message was taken to be the yielded value - never released, and the real
+    # result pushed without a retain)
+    sel = [select(8, recv(acc=[I(99)])),
+           select(4, tmo(1), recv(("bin",), acc=[B(9, 9)])),
+           select(5, recv(("bin",)), tmo(0)), select(6, recv(("bin",)), tmo(0)), ret(t(r(4), r(5), r(6)))]
+    s = scenario("bin_filter_timeout_during_w%d" % nw,
+                 [[spawn(1, 2), send(1, hb(1, 2)), send(1, hb(3, 4)), send(1, c(I(99))),
+                   select(2, aw(1)), ret(r(2))], sel], nw=nw, maxtick=2)
+    out.append(meta(s, False, True, ["C06", "C05"]))
+    sel = [select(8, recv(acc=[I(99)])),
+           select(4, aw(1), recv(("bin",), acc=[B(9, 9)])),
+           select(5, recv(("bin",)), tmo(0)), select(6, recv(("bin",)), tmo(0)), ret(t(r(4), r(5), r(6)))]
+    s = scenario("bin_filter_await_during_w%d" % nw,
+                 [[spawn(1, 3), spawn(2, 2, r(1)), send(2, hb(1, 2)), send(2, hb(3, 4)), send(2, c(I(99))), send(1, c(I(1))),
+                   select(3, aw(2)), ret(r(3))], sel,
+                  [select(1, recv()), ret(hb(7, 7))]], nw=nw)
+    out.append(meta(s, False, True, ["C06", "C05"]))
     # a process that keeps a binary, awaits a failing process and dies holding it
     s = scenario("bin_held_by_failed_w%d" % nw,
                  [[spawn(1, 2), select(2, aw(1)), ret(r(2))],
